@@ -159,6 +159,7 @@ def group_job(job):
         with open(os.path.join(work, 'MCDosConf.cfg'), 'w', encoding='utf8') as handle:
             handle.write('SPECIFICATION CSpec\nCONSTANTS\n  Keys <- MCKeys\n  Initial <- MCInitial\n  InitialPacked <- MCPacked\n'
                          '  WriterAdds <- MCAdds\n  ReaderWants <- MCWants\n'
+                         '  MaxRetries = 3\n  SeekKey = "none"\n'
                          f'  ReaderPinned = {"TRUE" if pinned else "FALSE"}\n  PerPack = {"TRUE" if perpack else "FALSE"}\n'
                          '  AllowCrash = FALSE\n  AllowPower = FALSE\n  AllowFault = FALSE\n  UnlinkBeforeCommit = FALSE\n'
                          '  CommitBeforeFlush = FALSE\n  NoFallback = FALSE\n  SkipPackFsync = FALSE\n  RenameBeforeFsync = FALSE\n'
